@@ -152,6 +152,32 @@ def judgeLine (line : String) : String :=
       if outs == want then s!"OK encbatch-{ms.length}"
       else s!"SPEC encbatch-{ms.length} a-kept-encoding-differs-from-the-OGC-layout-when-read-after-later-Encode-calls"
     | _ => s!"SPEC encbatch {" ".intercalate rhs}"
+  | "alias" :: layout :: o :: gt =>
+    -- shared-backing input, encoded twice, compared before/after, overwritten in place, encoded again
+    match geomOfToks gt with
+    | some (g, "|" :: gt') =>
+      match geomOfToks gt' with
+      | some (g', _) =>
+        let bo := boOf o
+        let cls := s!"alias-{layout}-{geomClass g}"
+        let hexOf := fun (x : BGeom) => (serialize bo x).map fun bs => (bytesToHex bs, String.ofList (hexEncode bs))
+        match rhs, hexOf g, hexOf g' with
+        | x1 :: h1 :: twice :: input :: x3 :: h3 :: dec, some (w1, wh1), some (w3, wh3) =>
+          if x1 != "x" ++ w1 then s!"SPEC {cls} bytes-differ-from-OGC-layout"
+          else if h1 != "h" ++ wh1 then s!"SPEC {cls} hex-text-differs"
+          else if twice != "same" then s!"SPEC {cls} same-geometry-encoded-twice-gives-different-bytes"
+          else if input != "intact" then s!"SPEC {cls} Encode-changed-its-argument input={input}"
+          else if !sameRes dec (.ok g) then s!"SPEC {cls} decoded-value-differs-after-its-input-buffer-was-overwritten"
+          else if x3 != "x" ++ w3 then s!"SPEC {cls} encoding-after-in-place-change-of-the-input-is-not-the-OGC-layout-of-the-new-value"
+          else if h3 != "h" ++ wh3 then s!"SPEC {cls} hex-text-after-in-place-change-of-the-input-differs"
+          else match encode bo g, encode bo g' with
+            | .ok m1, .ok m3 =>
+              if "x" ++ bytesToHex m1 == x1 && "x" ++ bytesToHex m3 == x3 then s!"OK {cls}" else s!"DIFF {cls} model-bytes-differ"
+            | _, _ => s!"DIFF {cls} model-errs-impl-encodes"
+        | _, none, _ => s!"OK skipped"
+        | _, _, _ => s!"SPEC {cls} {" ".intercalate (rhs.take 4)}"
+      | none => "BAD parse"
+    | _ => "BAD parse"
   | "skip" :: _ => "OK skipped"
   | _ => "BAD line"
 
